@@ -41,11 +41,48 @@ def parse_out(out):
     return (" ".join(w), None, None)
 
 
-def operands(case):
-    """(op, operands); a leading `at <n>` (operand placement, see AT) is not part of the operation"""
+# ------------------------------------------------------------------ fmt::Arguments shapes
+# Format strings that are LITERALS in the harness source (harness/c10/src/fmt_shapes.rs holds the same table, compared
+# by fmt_table_observation), by their rendered bytes.  `Arguments::as_str()` is Some only for a literal without
+# arguments, so a fast path keyed on it is reachable only through these — never through a swept run-time string.
+FMT_LITS = [b"", b"a", b"/a", b"a/", b"/", b"//x", b"a/b", b".", b"./b", b"there", b"/there", b"//", b"/a/",
+            b"a\0b", b"a\0", b"\0", b"/\0", b"{}", b"/{a}", b"}/{", b"a" * 255, b"/" + b"b" * 298 + b"/"]
+FMT_FORMS = {"l": 0, "la": 1, "al": 1, "lal": 1, "a": 1, "ala": 2, "laa": 2, "aal": 2}      # form -> number of run-time arguments
+FMT_OPS = {"formats": 0, "join_fmts": 1}                                                   # op -> number of operands before the literal
+
+
+def fmt_render(form, lit, x, y):
+    """what `alloc::fmt::format` makes of the shape: the pieces in source order"""
+    return {"l": lit, "la": lit + x, "al": x + lit, "lal": lit + x + lit, "a": x,
+            "ala": x + lit + y, "laa": lit + x + y, "aal": x + y + lit}[form]
+
+
+def fmt_parts(case):
+    """(form, literal, x, y) of a `formats` / `join_fmts` line, else None"""
     w = case.split()
     if w[0] == "at":
         w = w[2:]
+    if w[0] not in FMT_OPS:
+        return None
+    k = 1 + FMT_OPS[w[0]]
+    return w[k + 1], C.unhex(w[k]), C.unhex(w[k + 2]), C.unhex(w[k + 3])
+
+
+def fmt_line(op, form, lit, x=b"", y=b"", base=None, at=""):
+    return at + op + " " + ("" if base is None else hx(base) + " ") + "%s %s %s %s" % (hx(lit), form, hx(x), hx(y))
+
+
+def operands(case):
+    """(op, operands); a leading `at <n>` (operand placement, see AT) is not part of the operation.  For the
+    Arguments-shape lines (`formats <lit> <form> <x> <y>`, `join_fmts <a> <lit> <form> <x> <y>`) the formatted operand is
+    the RENDERED payload: the property speaks about bytes, not about how the caller spelled the format string"""
+    w = case.split()
+    if w[0] == "at":
+        w = w[2:]
+    if w[0] in FMT_OPS:
+        k = 1 + FMT_OPS[w[0]]
+        form, lit, x, y = fmt_parts(case)
+        return w[0], [C.unhex(t) for t in w[1:k]] + [fmt_render(form, lit, x, y)]
     return w[0], [C.unhex(x) for x in w[1:]]
 
 
@@ -145,7 +182,7 @@ def judge(case, out):
         return None if raw == exp else "wrong: content differs from the input"
     if op == "lit":
         return None if (kind == "ok" and raw == a + b"\0") else "wrong: literal not reproduced with one terminator"
-    if op == "format":
+    if op in ("format", "formats"):
         if kind != "ok":
             return "wrong outcome"
         if 0 not in a:
@@ -176,7 +213,7 @@ def judge(case, out):
         if kind != "ok":
             return "wrong outcome"
         return None if wfu(raw) else "not-wfu: result is not NUL-terminated exactly once"
-    if op == "join_fmt":
+    if op in ("join_fmt", "join_fmts"):
         p = ops[1]
         if kind != "ok":
             return "wrong outcome"
@@ -320,12 +357,83 @@ def gen_placed(ctx):
     return cases
 
 
+FMT_ARGS = [b"", b"a", b"/", b"/a", b"a/", b"//", b"b/c", b".", b"q" * 260, b"/" + b"q" * 254]
+FMT_ARGS_SMALL = FMT_ARGS[:6]
+FMT_BASES = [b"", b"/", b"a", b"a/", b"a//", b"//", b"/a", b"a/b", b"a/b/", b".", b"there", b"hello/",
+             b"x" * 255, b"x" * 254 + b"/", b"/" + b"y" * 299, b"z" * 4096 + b"//"]
+
+
+def fmt_shape_lines(r, op, base=None, pairs=None, nul_args=False, at_share=4):
+    """every table literal in every Arguments shape: literal only; literal before / behind / around one run-time
+    argument; the argument alone; literal between / before / behind two arguments — arguments from FMT_ARGS (empty, with
+    leading / trailing / double separators, longer than NAME_MAX), `pairs` argument pairs per two-argument shape (None:
+    all 36 small pairs).  One line in `at_share` is placed (`at <n>`: base and first argument at chosen alignments)"""
+    out = []
+
+    def emit(form, lit, x=b"", y=b""):
+        at = AT(r.below(16), r.below(16), r.below(4)) if r.chance(1, at_share) else ""
+        out.append(fmt_line(op, form, lit, x, y, base, at))
+
+    args1 = FMT_ARGS + ([b"\0", b"a\0", b"a\0b"] if nul_args else [])
+    for lit in FMT_LITS:
+        emit("l", lit)
+        for form in ("la", "al", "lal"):
+            for x in args1:
+                emit(form, lit, x)
+        small = [(x, y) for x in FMT_ARGS_SMALL for y in FMT_ARGS_SMALL]
+        for form in ("ala", "laa", "aal"):
+            for x, y in (small if pairs is None else r.shuffle(small)[:pairs]):
+                emit(form, lit, x, y)
+            emit(form, lit, r.choice(FMT_ARGS), r.choice(args1))
+    for x in args1:
+        emit("a", b"", x)
+    return out
+
+
+def gen_fmt_shapes(ctx):
+    """C10: from_format over the whole table x shapes x argument (pairs); path_join_fmt likewise over a few bases
+    (well-formed and not)"""
+    quick = ctx.tier == "quick"
+    r = ctx.rng
+    cases = fmt_shape_lines(r, "formats", None, None, nul_args=True)
+    for b in [b"\0", b"/\0", b"a\0", b"a/\0", b"a//\0", b"x" * 255 + b"\0", b"", b"a", b"a\0\0"] + [c + b"\0" for c in r.shuffle(long_component_paths(r))[:3]]:
+        cases += fmt_shape_lines(r, "join_fmts", b, 4 if quick else None, nul_args=True)
+    return cases
+
+
+def fmt_table_observation(ctx, exe):
+    """the literal table compiled into the harness is FMT_LITS, and the shapes really are what their names say:
+    `Arguments::as_str()` is Some for every literal-only line (the dimension this stream exists for) and None for every
+    shape with a run-time argument"""
+    lines = ["fmtkeys"] + ["fmtshape %s %s" % (hx(l), f) for l in FMT_LITS for f in FMT_FORMS if f != "a" or not l]
+    _, outs, _ = C.run_filter([exe], lines)
+    ctx.evaluations += len(lines)
+    keys = outs[0].split() if outs else []
+    table_ok = bool(keys) and keys[0] == "keys" and sorted(C.unhex(k) for k in keys[1:]) == sorted(FMT_LITS)
+    wrong = [(c, o) for c, o in zip(lines[1:], outs[1:]) if o != ("shape some" if c.split()[2] == "l" else "shape none")]
+    ctx.extra["fmt_arguments_shapes"] = {"literals": len(FMT_LITS), "forms": sorted(FMT_FORMS), "table_matches": table_ok,
+                                         "as_str_some": sum(1 for o in outs[1:] if o == "shape some"),
+                                         "as_str_none": sum(1 for o in outs[1:] if o == "shape none"), "unexpected": wrong[:4]}
+    if not table_ok or wrong or len(outs) != len(lines):
+        ctx.violation({"op": "fmtshape", "kind": "literal-shape-not-reached"},
+                      {"what": "the harness no longer builds the fmt::Arguments shapes the check believes it explores",
+                       "table_matches": table_ok, "unexpected": wrong[:8]}, no_input=True)
+
+
 def malformed_cases():
     return ["", "nop 61", "ustr_bytes", "ustr_bytes 6", "ustr_bytes zz", "ustr_bytes 61 62 63", "ustr_str ff00",
             "format ff", "const c3a900", "join 6100", "find 6100", "parent 6100 6100", "join_fmt 6100 ff",
             "match_str 6100 ff", "USTR_BYTES 6100", "join 6100 6", "- -", "own",
             "at 3 ustr_bytes", "at x ustr_bytes 6100", "at 1024 ustr_bytes 6100", "at -1 ustr_bytes 6100", "at 00003 ustr_bytes 6100",
-            "at 3 at 3 6100", "at 3 nop 6100", "at 3 join 6100", "at 3 find 6100 6100 6100", "at 3 mode debug", "at 3", "at"]
+            "at 3 at 3 6100", "at 3 nop 6100", "at 3 join 6100", "at 3 find 6100 6100 6100", "at 3 mode debug", "at 3", "at",
+            # Arguments-shape lines: unknown form, wrong arity / word count, unused argument not empty, literal in shape `a`,
+            # non-ASCII / non-hex pieces
+            "formats", "formats 61", "formats 61 l", "formats 61 l -", "formats 61 l - - -", "formats 61 q - -", "formats 61 L - -",
+            "formats 61 l 61 -", "formats 61 l - 61", "formats 61 la 61 61", "formats 61 a 61 -", "formats - a 61 61",
+            "formats ff l - -", "formats 61 la ff -", "formats 61 ala 61 c3a9", "formats 6 l - -", "formats 61 la zz -",
+            "join_fmts 6100 61 l", "join_fmts 6100 61 l -", "join_fmts 6100 61 l - - -", "join_fmts 6100 61 x - -", "join_fmts 6100 61 l 61 -",
+            "join_fmts 6100 61 al - 61", "join_fmts 61 61 a 61 -", "join_fmts 6100 ff l - -", "join_fmts 6 61 l - -", "join_fmts 61 61 zz - -",
+            "at 3 formats 61 l", "at 1024 formats 61 l - -", "at 3 join_fmts 6100 61 l -", "at x join_fmts 6100 61 l - -", "at 3 formats 61 q - -"]
 
 
 def build(ctx, release=False):
@@ -352,6 +460,16 @@ def account(ctx, exe, cases, nsamples=6):
         if placed(c):
             ctx.hist("placement", "start=%d mod 16" % (int(c.split()[1]) & 15))
         ctx.hist("outcomes", op + ":" + kind)
+        fp = fmt_parts(c)
+        if fp:
+            # the Arguments shape is a coverage class of its own, crossed with what sits at the join boundary
+            form, lit, x, y = fp
+            ctx.hist("fmt-arguments-shape", op + ":" + form + (" (as_str()=Some)" if form == "l" else ""))
+            if op == "join_fmts" and kind == "ok":
+                a, pay = ops[0][:-1], ops[1]
+                ctx.count((op, form, "base:" + ("empty" if not a else "slash" if a.endswith(b"/") else "plain"),
+                           "ext:" + ("empty" if not pay else "slash" if pay.startswith(b"/") else "plain"),
+                           "nul" if 0 in pay else "nul-free"))
         if kind not in ("reject",) and shown.get(op, 0) < 1 and len(c) < 120 and any(len(x) > 2 for x in ops):
             shown[op] = 1
             ctx.sample({"case": c, "implementation": o}, cap=24)
@@ -405,11 +523,19 @@ def run(ctx):
                 "length 0..48 (thorough 80) and 63..65/127..130/254..257/300/301 (+ 4 alignments x 4095..4097) x {no NUL, one NUL at every "
                 "position, that NUL plus a terminator}; the other borrowed/owned/const/d_name entry points on a mod-8-covering alignment "
                 "set x lengths 0..24,31..33,40,64,255..257 likewise; parent/file_name/own/join/join_fmt on paths around one component of "
-                "1..4097 bytes; distinct_nontrivial = distinct (operation, outcome kind, operand lengths capped at 3 or flagged >= 255, "
+                "1..4097 bytes; FMT-SHAPES stream: from_format (`formats <lit> <form> <x> <y>`) and path_join_fmt (`join_fmts <base> ...`) handed every "
+                "SHAPE of fmt::Arguments around 22 format strings that are LITERALS compiled into the harness (empty, relative, absolute, "
+                "trailing / double separators, embedded / trailing / lone NUL, escaped braces, 255 and 300 bytes): literal only "
+                "(Arguments::as_str() = Some), literal before / behind / around one `{}` argument, argument only, two arguments, arguments "
+                "incl. NULs and > NAME_MAX, bases well-formed and not; distinct_nontrivial = distinct (operation, outcome kind, operand lengths capped at 3 or flagged >= 255, "
                 "operand ends in NUL, placed) classes observed on the implementation")
     ctx.assumptions += [
         "Model/UnixStr.lean describes rusl/src/string/unix_str.rs + strlen.rs::buf_strlen (checked by this run's correspondence, debug and release builds, raw as_slice() bytes)",
         "alloc::fmt::format(args) yields exactly the concatenated argument bytes (the model takes the formatted bytes as input; format shapes varied by the harness)",
+        "the SHAPE of a fmt::Arguments (source-level literal format string, where Arguments::as_str() is Some, vs. run-time arguments) is not an "
+        "input of the model (fromFormatArgs / pathJoinFmtArgs = the call on the rendering; theorem fmt_shape_independent); that the real "
+        "from_format / path_join_fmt do not depend on it is OBSERVED by the fmt-shapes stream over the literal table compiled into the harness "
+        "(fmt_shapes.rs, 22 literals x 8 shapes; table equality and as_str() Some/None checked by fmt_table_observation), not proved",
         "str-typed entry points are exercised on ASCII (incl. NUL) inputs only; they forward to the byte versions (as_bytes/into_bytes)",
         "DirEntry::file_unix_name is modelled as buf_strlen + inclusive re-slice of d_name; the real getdents path is observed on a temp directory, not modelled",
         "unsafe constructors (from_*_unchecked, from_ptr) are outside the property",
@@ -422,9 +548,11 @@ def run(ctx):
     cases = gen_cases(ctx)
     good = run_streams(ctx, "ctor-path", cases, judge, sig_of)
     run_streams(ctx, "ctor-path-placed", gen_placed(ctx), judge, sig_of)
+    run_streams(ctx, "fmt-shapes", gen_fmt_shapes(ctx), judge, sig_of)
     exe = build(ctx, False)
     if exe is None:
         return
+    fmt_table_observation(ctx, exe)
     C.correspond(ctx, "malformed", malformed_cases(), [exe], [C.driver_path("drv_c10")],
                  lambda c, o: None if o == "bad-op" else "malformed line not rejected with bad-op", lambda c, o, w: {"op": "malformed", "kind": "accepted"})
     dirent_observation(ctx, exe)
